@@ -52,6 +52,32 @@ expect() {  # expect <label> <repo> <property> <status> [<substring of the JSON 
   echo "ok   $label: $pid -> $got${sub:+ ($sub)}"
 }
 
+echo "== translator correspondence: translator/testdata/tsem run natively vs. generated Gallina under vm_compute"
+T=/tmp/ttie-selftest-sem-$$; rm -rf "$T"; mkdir -p "$T"; scratch+=("$T")
+bin/ttie --build >/dev/null || { echo "FAIL translator does not build"; exit 2; }
+if (cd translator/testdata/tsem && go run . > "$T/examples.txt") \
+   && build/go2coq -repo translator/testdata/tsem -targets translator/testdata/tsem/targets.json -out "$T" >/dev/null; then
+  { cat <<'EOV'
+From Coq Require Import ZArith NArith QArith List Bool.
+From MM Require Import Base.Num Base.GoSem.
+From MMGen Require Import Gen_sem_types Gen_sem_sem.
+Import ListNotations.
+Local Open Scope Q_scope.
+Fixpoint qlist_eqb (a b : list Q) : bool :=
+  match a, b with
+  | [], [] => true
+  | x :: a', y :: b' => Qeq_bool x y && qlist_eqb a' b'
+  | _, _ => false
+  end.
+EOV
+    cat "$T/examples.txt"; } > "$T/SemTest.v"
+  okc=1
+  for f in Gen_sem_types Gen_sem_sem SemTest; do
+    (cd "$T" && timeout 600 coqc -Q "$ROOT/coq" MM -Q . MMGen $f.v) > "$T/$f.log" 2>&1 || { okc=0; echo "FAIL translator correspondence ($f.v):"; tail -5 "$T/$f.log"; break; }
+  done
+  if [ $okc = 1 ]; then echo "ok   translator correspondence: $(wc -l < "$T/examples.txt") native evaluations reproduced by the generated definitions"; else fail=1; fi
+else echo "FAIL translator correspondence: native run or translation failed"; fail=1; fi
+
 echo "== pristine $SRC: every tie checks"
 if VERIF_REPO="$SRC" bin/ttie --all; then echo "ok   pristine"; else echo "FAIL pristine"; fail=1; fi
 
